@@ -6,7 +6,8 @@ def I(name, entry, cfg, bound, **kw):
 STANZA = [I('stanza_%s%s' % (n, 'e' if e else 'l'), 'stanza', c | e, 'one arbitrary top-level element (tag <= 3, type <= 6, id <= 2, from <= 3 units), attributes present: ' + n)
           for (n, c) in (('tif', 14), ('ti', 6), ('tf', 10), ('if', 12)) for e in (1, 0) if not (e == 0 and n in ('tf', 'if'))]
 SEND = [I('send_packet_%s' % n, 'send_packet', m << 4, 'arbitrary id <= 2 / addressee <= 3 units incl. empty and duplicate; stream send ' + n) for (n, m) in (('ok', 0), ('fail', 1), ('pending', 2), ('pending_then_fail', 2 | 1 << 2 | 1 << 4), ('pending_then_ok', 2 | 2 << 2 | 1 << 4))] + \
-       [I('send_iq_%s' % n, 'send_iq', m << 4, 'QXmppIq with arbitrary id / to (incl. empty), arbitrary own bare JID, arbitrary generated ids; stream send ' + n) for (n, m) in (('ok', 0), ('fail', 1))]
+       [I('send_iq_%s' % n, 'send_iq', m << 4, 'QXmppIq with arbitrary id / to (incl. empty), arbitrary own bare JID, arbitrary generated ids; stream send ' + n) for (n, m) in (('ok', 0), ('fail', 1))] + \
+       [I('send_then_reply', 'send_then_reply', 256, 'two events: valid send (new id 2 units, pending ids 1 unit), then result/error reply with that id and arbitrary from <= 3 units')]
 SPEC = dict(
     property='C07',
     groups=[
@@ -33,5 +34,28 @@ SPEC = dict(
                  I('chain_typed', 'chain', 3, 'chainIq<variant<QXmppIq,QXmppError>>, continuation before reply'),
              ]),
     ],
-    bounds=[], assumptions=[], outside=[],
+    bounds=[
+        'single inductive steps: arbitrary valid request table with 0..2 pending requests (ids 1..2, recorded addressees 1..3 arbitrary UTF-16 units, ids distinct, promises unfinished, continuation attached before or after the event) and ONE event',
+        'incoming element: tag <= 3 units (covers "iq" and any other), type <= 6 units (covers result/error/get/set/garbage) or absent, id <= 2 units or absent, from <= 3 units or absent/empty; error replies: no child elements (the <error/> payload only shapes the error value)',
+        'send: id <= 2 units incl. empty and duplicate, addressee <= 3 units incl. empty, own bare JID <= 3 units incl. empty, generated UUIDs = arbitrary non-empty strings <= 2 units (may even collide); stream outcome in {sent, error at once, pending, pending then error, pending then success}',
+        'send_packet_pending_then_*: id lengths fixed (new id 2 units, pending ids 1 unit, addressee 2 units) so that the request is valid by construction',
+        're-entrancy (reenter_*): exactly one pending request whose handler issues one new request with a fresh id',
+        'request table model capacity 3 (2 pending + 1 new)',
+    ],
+    assumptions=[
+        'representation invariant of the pre-state (what start() establishes): ids non-empty and pairwise distinct, addressee non-empty, promise unfinished',
+        'QXmppTask/QXmppPromise behave as their shadow (contract proved for the real classes by C13): continuation runs once with the value; a second finish() is reported as a failure by the shadow itself',
+        'std::unordered_map<QString,IqState> behaves as the array-backed class-level model vp_iqmap.h (find/emplace/erase/clear/iteration; an element inserted during a running iteration may or may not be visited)',
+        'StreamAckManager::send is cut: it reports success, an error, or nothing yet (C09 covers it); QXmppPacket serialisation is cut; QXmppConfiguration::jidBare() returns an arbitrary string; QXmppUtils::generateStanzaUuid returns arbitrary non-empty strings; logging is a no-op; QXmppIq::parseElementFromChild not reached (no children)',
+        'absent attribute == QDomElement::attribute() returning the empty default (Qt contract)',
+    ],
+    outside=[
+        'the request APIs of the bundled managers (MAM, PubSub, discovery, ...): each is its own chain of continuations over manager-private state; only the generic chaining templates chain/chainIq/parseIq are encoded (two instantiations: converter form of QXmppClient::sendGenericIq and the typed form chainIq<variant<QXmppIq,QXmppError>>)',
+        'histories longer than one event are covered by induction over the table invariant, not enumerated; a stale send-error report that arrives after its request was answered and the same id was reused is not modelled',
+        'handlers that re-enter the manager from inside handleStanza()/finish() (only re-entrancy during cancelAll is encoded: reenter_*)',
+        'destruction of QXmppOutgoingClientPrivate members and of the QObject base in ~QXmppOutgoingClient (only the destructor body: resetCache + cancelAll)',
+        'content of the <error/> child of an error reply (QXmppStanza::Error parsing belongs to C01/C02); sceTimestamp/e2ee metadata',
+        'rehash-induced iterator invalidation of the real std::unordered_map',
+    ],
+
 )
